@@ -36,6 +36,13 @@ class Facts:
         self.fn = fn
         self.mod = fn.mod
         self._cond_cache = {}
+        self._phase = 1
+        self._inn1 = {}
+        self._compute()
+        # second pass: boolean phis (`a && b` conditions) are expanded using the facts of pass 1
+        self._inn1 = dict(self.inn)
+        self._phase = 2
+        self._cond_cache = {}
         self._compute()
 
     # ---- conditions -------------------------------------------------------
@@ -70,8 +77,17 @@ class Facts:
                     res |= self.cond_facts(c, True) | self.cond_facts(a, True)
                 if not truth and is_const(a) and const_val(a) != 0:
                     res |= self.cond_facts(c, False) | self.cond_facts(b, False)
-            elif d.op == "phi" and self._is_bool(d):
-                pass
+            elif d.op == "phi" and self._is_bool(d) and self._phase >= 2:
+                # the phi is true (false) only if it came through an incoming that can be
+                # true (false); facts common to all such incomings hold
+                acc = None
+                for v, pb in d.incoming:
+                    if is_const(v) and bool(const_val(v)) != truth:
+                        continue
+                    fs = set(self.cond_facts(v, truth)) | set(self._inn1.get(pb, frozenset())) | set(self.edge_facts(pb, d.block.id))
+                    acc = fs if acc is None else (acc & fs)
+                if acc:
+                    res |= acc
             if d.op != "icmp":
                 # generic: value (non)zero
                 res.add(norm_fact("ne" if truth else "eq", o, ("ci", 0, 0)))
